@@ -410,6 +410,16 @@ float list rules go to `double` for FLOAT64 and to `float` otherwise; integer li
 member of their format -/
 theorem C04_src_list_slots : listSlotFacts = true := by decide
 
+/-- roots: an object root carries exactly entity name, entity part and any-membership into its
+message options and each is read back from that very option field; the `object` / `oneof` mark of
+`(j5.ext.v1.message).type` is written by the two visitors and decides `isOneofWrapper` first -/
+theorem C04_src_root_annotations : rootFacts = true := by decide
+
+/-- the reader's legacy entity lookup through a field called `keys` is present, and is the only
+re-assignment of the PSM options: the open finding `schema-diff:root:entity:invented[keys-field]`
+(`C04_root_entity_invented_counterexample`); repairing it changes this fact -/
+theorem C04_src_legacy_keys_lookup : legacyKeysLookupFacts = true := by decide
+
 /-- `Required` / `ExplicitlyOptional` are read as the model's `readField` reads them (array and map
 properties: `(buf.validate.field).required` only), and every property builder names the property
 by `json_name` (`C04_reader_uses_json_name`) -/
